@@ -68,6 +68,9 @@ func replayTrace(tr *Trace) error {
 	if _, _, _, ok := scaleParams(tr); ok {
 		return replayScale(tr)
 	}
+	if tr.Params["mode"] == "runeprobes" {
+		return replayRuneProbes(tr)
+	}
 	spec := specByID(tr.Property)
 	if spec == nil {
 		return fmt.Errorf("no history spec for property %q", tr.Property)
